@@ -5,7 +5,7 @@ From Centro Require Import Base.Sx Base.EmdBase Spec.Emd Model.Emd Model.EmdCert
   Proofs.EmdDuality Proofs.EmdScaled Proofs.EmdModel Proofs.EmdSsp Proofs.EmdCertModel Proofs.EmdMetric
   Proofs.EmdFuel Proofs.EmdHeap Proofs.EmdTransform Proofs.EmdHeapPos Proofs.EmdHeapOrd Proofs.EmdPotential
   Proofs.EmdMcfCert Proofs.EmdHeapMem Proofs.EmdDijkstra Proofs.EmdDijkstraInit
-  Proofs.EmdTight Proofs.EmdGhost Proofs.EmdCspPost.
+  Proofs.EmdTight Proofs.EmdGhost Proofs.EmdCspPost Proofs.EmdPairAddr Proofs.EmdGraphShape.
 From Centro Require Import Model.EmdMcf.
 Import ListNotations.
 Open Scope Z_scope.
@@ -372,3 +372,47 @@ Theorem C10_ssp_reduced_costs_nonneg_partial : forall rf rb from st l v,
              rc_update (sp_final st) (sp_d st) (nz (sp_d st) l) v (pvn st v) (- rc) = 0.
 Proof. exact csp_tight_arc_zero. Qed.
 Print Assumptions C10_ssp_reduced_costs_nonneg_partial.
+
+(* ------------------------------------------------------------------------------------------------
+   Round 7.  C10_augment_pair_addressing: scan_delta / augment address capacities by NODE PAIRS (first
+   entry of r_cost_cap_backward[from] pointing at `to`, first entry of [to] pointing at `from`),
+   whichever arc the hop used.
+   REFUTED for graphs with an anti-parallel pair: a two-node balanced graph with non-negative costs
+   (arcs 0->1 and 1->0 of cost 1, supplies 2 / -2; optimum = 2) on which the forward hop 0->1 is limited
+   by the zero flow of 1->0, the amount is 0, the state repeats and the solver never reaches Done —
+   at every fuel level; the model answers None (the C++ would loop forever). *)
+Theorem C10_augment_pair_addressing_refuted :
+  exists e c st, zsum e = 0 /\ (forall l tc, In l c -> In tc l -> 0 <= snd tc) /\
+    (exists a b, In a (mk_arcs c) /\ In b (mk_arcs c) /\ a_from a = a_to b /\ a_to a = a_from b) /\
+    (forall k, (1 <= k)%nat -> mcf_iter k (mcf_init e c) = MMore st) /\ m_e st = e /\
+    min_cost_flow_ll e c = None.
+Proof. exact augment_pair_addressing_refuted_ex. Qed.
+Print Assumptions C10_augment_pair_addressing_refuted.
+
+(* ... and exact when the hop has no anti-parallel companion: under the ghost invariant the entries of
+   r_cost_cap_backward[from] are the arcs INTO from, so if no arc to->from exists the pair (from,to)
+   addresses nothing there — scan_delta is not limited and the decrement of augment is a no-op. *)
+Theorem C10_augment_pair_addressing : forall nv c pi rf rb from to, ghost nv c pi rf rb -> (from < nv)%nat ->
+  (forall a, In a (mk_arcs c) -> ~ (a_from a = to /\ a_to a = from)) ->
+  find_bwd (nth from rb []) to = None /\ forall g, upd_first_bwd (nth from rb []) to g = nth from rb [].
+Proof. exact pair_addressing_no_companion. Qed.
+Print Assumptions C10_augment_pair_addressing.
+
+(* The witness cannot be run against the real solver through the public API: unreachable through
+   emd_hat_impl's construction.  In the graph the reduction builds, apart from the artificial node
+   arcs only go source -> threshold -> sink, so two arcs are anti-parallel only if one end is the
+   artificial node (old name 2N+1). *)
+Theorem C10_emd_graph_no_companions_except_A : forall Pc Qc Cc emp a b,
+  let r := reduce Pc Qc Cc emp in
+  let AR := (2 * length Pc + 1)%nat in
+  In a (mk_arcs (r_cc r)) -> In b (mk_arcs (r_cc r)) ->
+  a_from a = a_to b -> a_to a = a_from b ->
+  nth_error (r_old r) (a_from a) = Some AR \/ nth_error (r_old r) (a_to a) = Some AR.
+Proof. exact emd_graph_no_companions_except_A. Qed.
+Print Assumptions C10_emd_graph_no_companions_except_A.
+
+(* STILL OPEN (named): artificial_node_unused — on these graphs no compute_shortest_path call finalises
+   the artificial node before it exits (i -> T -> j costs maxC < maxC + 1); it needs the link between
+   the ghost potentials and true distances.  Then augment_list_surgery (with C10_augment_pair_addressing,
+   C10_dijkstra_prev_tight, C10_mcf_reduced_cost_ghost_invariant), C10_mcf_model_optimal via
+   C10_mcf_cert_optimal, "Fail unreachable", read_back_bookkeeping, C10_model_total. *)
